@@ -570,6 +570,28 @@ def sort_group(tier='quick'):
                 if got != sorted(vals, reverse=rev):
                     _fail(fails, 'list dataset sort(key_fn) of %r reverse=%s' % (vals, rev), 'sort-permutation-ordered', got, sorted(vals, reverse=rev))
                     return cases, fails
+            # sort values of other kinds: numpy scalars (unsigned, narrow signed at their minimum), bools, floats with a big int,
+            # strings, tuples -- a permutation whose sort values are ordered like `sorted` orders them
+            if n and (tier != 'quick' or n <= 4):
+                import numpy as np
+                conv = {'np.uint8': lambda v: np.uint8(v * 100), 'np.int8 incl. -128': lambda v: np.int8(-128 if v == 0 else v),
+                        'bool': lambda v: v > 0, 'float and big int': lambda v: (2 ** 53 + v) if v else 0.5, 'str': lambda v: 's%d' % v,
+                        'tuple': lambda v: (v % 2, 'x'), 'np.float32': lambda v: np.float32(v) / 3}
+                for cname, cv in conv.items():
+                    for rev in (False, True):
+                        cases += 1
+                        svals = [cv(v) for v in vals]
+                        want = [i for i, _ in sorted(enumerate(svals), key=lambda p: p[1], reverse=rev)]
+                        dsv = lazy_dataset.new({k: {'i': i, 'sv': sv} for i, (k, sv) in enumerate(zip(keys, svals))})
+                        try:
+                            got = [ex['i'] for ex in dsv.sort(lambda ex: ex['sv'], reverse=rev)]
+                        except Exception as e:      # noqa
+                            got = '%s: %s' % (type(e).__name__, str(e)[:80])
+                        # (the order among equal sort values is not part of the statement)
+                        ok = isinstance(got, list) and sorted(got) == list(range(n)) and [svals[i] for i in got] == [svals[i] for i in want]
+                        if not ok:
+                            _fail(fails, 'sort(key_fn -> %s) of %r reverse=%s' % (cname, svals, rev), 'sort-permutation-ordered', got, want)
+                            return cases, fails
             # sort / groupby of DERIVED datasets (selections built from key lists, sorted views, slices, eager filters)
             if 1 <= n <= 4:
                 import numpy as np
@@ -749,6 +771,17 @@ def offered_lengths(tier='quick'):
         if n:
             bases['dynamic buckets'] = src.map(lambda x: {'len': x + 1}).batch_dynamic_time_series_bucket(
                 2, len_key='len', max_padding_rate=0.5)
+        # combinations of a sized input with one of data-dependent size: the constructor may refuse them; what it accepts must
+        # not offer a wrong length
+        combos = {'zip(ds, %s)': lambda a, b: a.zip(b), 'zip(%s, ds)': lambda a, b: b.zip(a), 'lazy_dataset.zip(ds, %s)': lambda a, b: lazy_dataset.zip(a, b),
+                  'concatenate(ds, %s)': lambda a, b: a.concatenate(b), 'concatenate(%s, ds)': lambda a, b: b.concatenate(a),
+                  'intersperse(ds, %s)': lambda a, b: a.intersperse(b), 'intersperse(%s, ds)': lambda a, b: b.intersperse(a)}
+        for bname in ('filter', 'map.catch', 'batch.unbatch', 'prefetch catch'):
+            for cname, mk in combos.items():
+                try:
+                    bases[cname % bname] = mk(src, bases[bname])
+                except Exception:      # noqa  (refused at construction: nothing is offered)
+                    pass
         stacked = {}
         for name, ds in bases.items():
             stacked[name] = ds
@@ -783,6 +816,14 @@ import collections as _collections
 _NT = _collections.namedtuple('_NT', 'v arr meta')      # module level: picklable
 
 
+def _obj_array(items):
+    import numpy as np
+    a = np.empty(len(items), dtype=object)
+    for i, it in enumerate(items):
+        a[i] = it
+    return a
+
+
 def isolation_more(tier='quick'):
     """C09 (continued): example shapes other than dicts (tuples / namedtuples holding mutable parts), and mutation INSIDE a
     running first-epoch loop (`for x in ds: mutate(x)`), over items(), through a copy, and with an aborted epoch."""
@@ -811,7 +852,17 @@ def isolation_more(tier='quick'):
         'list': (lambda i: [[i, i + 1], np.arange(3) + i, {'k': i}],
                  lambda x: (list(x[0]), x[1].tolist(), dict(x[2])),
                  lambda x: (x[0].append(99), x[1].__setitem__(0, 77), x[2].__setitem__('new', 1))),
+        # an object array holding mutable python objects (ragged segment lists, arrays of dicts): ndarray.copy() is shallow for it
+        'object-array': (lambda i: {'segments': _obj_array([[i, i + 1], {'k': i}])},
+                         lambda x: (list(x['segments'][0]), dict(x['segments'][1])),
+                         lambda x: (x['segments'][0].append(99), x['segments'][1].__setitem__('new', 1))),
+        # an example that cannot be pickled (holds a lambda): a storage that refuses it hands nothing out -- fine; one that
+        # accepts it must still isolate it
+        'unpicklable': (lambda i: {'v': [i, i + 1], 'fn': (lambda: i)},
+                        lambda x: (list(x['v']),),
+                        lambda x: (x['v'].append(99),)),
     }
+    may_refuse = {'unpicklable'}
 
     def loops(ds, keyed, mutate):
         def full():
@@ -880,7 +931,12 @@ def isolation_more(tier='quick'):
                          lambda: lazy_dataset.new({'k%d' % i: i for i in range(3)}).map(lambda i: mk(i)).diskcache(
                              _scratch_dir() + '/c')))
         for bname, keyed, build in builders:
-            n_h = len(loops(build(), keyed, mutate))
+            try:
+                n_h = len(loops(build(), keyed, mutate))
+            except Exception:      # noqa
+                if sname in may_refuse:
+                    continue          # refused at construction: nothing is stored, nothing handed out
+                raise
             for hi in range(n_h):
                 cases += 1
                 ds = build()
@@ -888,11 +944,18 @@ def isolation_more(tier='quick'):
                 try:
                     h()
                 except Exception as e:      # noqa
+                    if sname in may_refuse:
+                        continue
                     _fail(fails, '%s; %s' % (bname, hname), 'history runs', type(e).__name__ + ': ' + str(e)[:80], 'no exception')
                     continue
                 for path, got in (('iteration', lambda: snap(ds, view)), ('index', lambda: [view(ds[i]) for i in range(3)]),
                                   ('copy', lambda: snap(ds.copy(), view))):
-                    g = got()
+                    try:
+                        g = got()
+                    except Exception:      # noqa
+                        if sname in may_refuse:
+                            continue
+                        raise
                     if g != pristine:
                         _fail(fails, '%s; %s; then read by %s' % (bname, hname, path), 'isolation-of-handed-out-examples', g, pristine)
                         break
@@ -1016,6 +1079,37 @@ def profiling_stage_counts(tier='quick'):
                     _fail(fails, sc, 'hit count of wrapper node %d (%s)' % (depth, type(node.input_dataset).__name__),
                           list(node.hit_count), [delivered, 0])
                     break
+    # (key, example) pairs through the wrapper over several epochs: a per-epoch reshuffle below it is frozen anew by every
+    # catch / multi-worker prefetch epoch -- each pair delivered must be a pair of the source, the keys a permutation of its
+    # keys, exactly as for the unprofiled twin
+    os.environ.setdefault('OMP_NUM_THREADS', '1')
+    os.environ.setdefault('MKL_NUM_THREADS', '1')
+    for n in ((4, 7) if tier == 'quick' else (2, 4, 7, 11)):
+        def src():
+            return lazy_dataset.new({'k%d' % i: i for i in range(n)})
+        pair_builders = {
+            'reshuffle.items().catch()': lambda: src().shuffle(reshuffle=True, rng=np.random.RandomState(7)).items().catch(),
+            'reshuffle.catch().items()': lambda: src().shuffle(reshuffle=True, rng=np.random.RandomState(7)).catch().items(),
+            'reshuffle.items().prefetch(2, 4)': lambda: src().shuffle(reshuffle=True, rng=np.random.RandomState(7)).items().prefetch(2, 4),
+            'reshuffle.map.prefetch(2, 2).items()': lambda: src().shuffle(reshuffle=True, rng=np.random.RandomState(7)).map(f).prefetch(2, 2).items(),
+            'reshuffle.items()': lambda: src().shuffle(reshuffle=True, rng=np.random.RandomState(7)).items(),
+        }
+        for name, build in pair_builders.items():
+            cases += 1
+            sc = 'ProfilingDataset(%s) over %d examples, 4 epochs' % (name, n)
+            try:
+                plain = build()
+                e_plain = [list(plain) for _ in range(4)]
+            except Exception:      # noqa
+                continue
+            try:
+                p = ProfilingDataset(build())
+                e_prof = [list(p) for _ in range(4)]
+            except Exception as e:      # noqa
+                _fail(fails, sc, 'profiled pipeline runs like its twin', '%s: %s' % (type(e).__name__, str(e)[:100]), 'no exception')
+                continue
+            if e_prof != e_plain:
+                _fail(fails, sc, 'same (key, example) pairs and order as an identically seeded unprofiled twin', e_prof, e_plain)
     return cases, fails
 
 
@@ -1546,4 +1640,79 @@ def readahead_dataset_level(tier='quick'):
                   'g started on %d examples beyond those delivered' % worst_started, '<= buffer_size = %d' % b)
         if len(fails) >= 3:
             break
+    return cases, fails
+
+
+# ------------------------------------------------------------------ selections keep their own index data (C03, C12, C13)
+def views_alignment(tier='quick'):
+    """Selections (`ds[index array]`, `ds[list]`, `ds[key list]`, one-time shuffle, sort, groupby groups, shard, frozen copy
+    of a per-epoch reshuffle) over keyed datasets of 1, 3, 6 examples: keys(), items(), iteration, integer and key lookup of
+    the view stay aligned with each other AND unchanged while (a) the caller changes the index object it passed in place,
+    (b) the dataset the view was taken from goes on iterating / reshuffling, (c) keys() was or was not asked before."""
+    import numpy as np
+    import lazy_dataset
+    fails, cases = [], 0
+
+    def snapshot(v):
+        keys = tuple(v.keys())
+        vals = list(v)
+        items = list(v.items())
+        byidx = [v[i] for i in range(len(v))]
+        bykey = [v[k] for k in keys]
+        return keys, vals, items, byidx, bykey
+
+    def aligned(sn):
+        keys, vals, items, byidx, bykey = sn
+        return items == list(zip(keys, vals)) and byidx == vals and bykey == vals
+    for n in (1, 3, 6):
+        keys = ['key%02d' % i for i in range(n)]
+        for ask_keys_first in (False, True):
+            def src():
+                return lazy_dataset.new(dict(zip(keys, range(n))))
+            makers = {}
+            arr = np.array([(i * 2 + 1) % n for i in range(n)], dtype=np.int64)
+            makers['ds[int64 array]'] = (lambda a=arr: (src()[a], lambda: a.__setitem__(slice(None), a[::-1].copy())))
+            arr32 = np.array([(i * 2 + 1) % n for i in range(n)], dtype=np.int32)
+            makers['ds[int32 array]'] = (lambda a=arr32: (src()[a], lambda: a.__setitem__(slice(None), a[::-1].copy())))
+            lst = [(i * 2 + 1) % n for i in range(n)]
+            makers['ds[list]'] = (lambda l=lst: (src()[l], lambda: l.reverse()))
+            kl = [keys[(i * 2 + 1) % n] for i in range(n)]
+            makers['ds[key list]'] = (lambda l=kl: (src()[l], lambda: l.reverse()))
+
+            def frozen():
+                r = src().shuffle(True, rng=np.random.RandomState(3))
+                fz = r.copy(freeze=True)
+                return fz, (lambda: [list(r) for _ in range(3)])
+            makers['copy(freeze=True) of a reshuffle'] = frozen
+
+            def frozen_items():
+                r = src().shuffle(True, rng=np.random.RandomState(4)).map(lambda x: x)
+                fz = r.copy(freeze=True)
+                return fz, (lambda: [list(r.items()) for _ in range(2)])
+            makers['copy(freeze=True) of reshuffle.map'] = frozen_items
+            makers['shuffle()'] = lambda: (src().shuffle(rng=np.random.RandomState(5)), lambda: None)
+            makers['sort(key_fn)'] = lambda: (src().sort(lambda x: -x), lambda: None)
+            makers['shard'] = lambda: (src().shard(2, -1) if n >= 2 else src().shard(1, 0), lambda: None)
+            makers['groupby group'] = lambda: (sorted(src().groupby(lambda x: x % 2).items())[0][1], lambda: None)
+            for name, mk in makers.items():
+                cases += 1
+                try:
+                    view, perturb = mk()
+                    if ask_keys_first:
+                        view.keys()
+                    first = snapshot(view)
+                    perturb()
+                    second = snapshot(view)
+                except Exception as e:      # noqa
+                    _fail(fails, '%s over %d keyed examples' % (name, n), 'observable', '%s: %s' % (type(e).__name__, str(e)[:100]), 'no exception')
+                    continue
+                sc = '%s over %d keyed examples%s' % (name, n, ', keys() asked first' if ask_keys_first else '')
+                if not aligned(first):
+                    _fail(fails, sc, 'keys-items-iteration-lookups-aligned', first, 'aligned')
+                elif not aligned(second):
+                    _fail(fails, sc + ', after the index object / the parent changed', 'keys-items-iteration-lookups-aligned', second, 'aligned')
+                elif second != first:
+                    _fail(fails, sc, 'a selection does not follow later changes of the index object or of its parent', second, first)
+                if len(fails) >= 4:
+                    return cases, fails
     return cases, fails
